@@ -200,7 +200,7 @@ def run(ctx, report: Report) -> None:
                              f'(syntax error, or a silently dropped alternative in a forgiving list)')
 
     # ---- R2 --------------------------------------------------------------------------------------------
-    r2 = report.rule('C09-R2', 'unanchored searches on selector text stay inside whitespace', floor=8)
+    r2 = report.rule('C09-R2', 'unanchored searches on selector text stay inside whitespace', floor=5)
     ws = inv.const('css_parser', 'WS')
     pmod = src.mod('css_parser')
     for call in [c for c in ast.walk(pmod.tree) if isinstance(c, ast.Call)]:
@@ -229,7 +229,7 @@ def run(ctx, report: Report) -> None:
                          f'inside a token (e.g. at the "/" closing a comment when "*" follows)')
 
     # ---- R3 / R4 ---------------------------------------------------------------------------------------
-    r3 = report.rule('C09-R3', 'escapes are decoded exactly once between a match group and the IR', floor=6)
+    r3 = report.rule('C09-R3', 'escapes are decoded exactly once between a match group and the IR', floor=4)
     r4 = report.rule('C09-R4', 'case folding follows the last decode before comparison with lettered constants', floor=8)
     decode_pipeline_rule(ctx, r3, r4)
 
@@ -278,7 +278,7 @@ def run(ctx, report: Report) -> None:
                          f'the value list {w!r} accepted by {tok.name} cannot be split by RE_VALUES.finditer')
 
     # ---- R6 --------------------------------------------------------------------------------------------
-    r6 = report.rule('C09-R6', 'lexical sub-grammars equal their CSS Syntax definitions', floor=3)
+    r6 = report.rule('C09-R6', 'lexical sub-grammars equal their CSS Syntax definitions', floor=2)
     table = [('NEWLINE', NEWLINE_REF, 0), ('WS', WS_REF, 0), ('COMMENTS', COMMENT_REF, 0),
              ('CSS_ESCAPES', ESCAPE_REF, F), ('IDENTIFIER', IDENT_REF, F), ('VALUE', VALUE_REF, F)]
     for name, ref, fl_ in table:
